@@ -152,7 +152,7 @@ def table_consistency(ctx, vocab_name, e):
 def generic_forms(ctx, st, pt):
     rng = ctx.rng
     from peptacular.proforma.proforma_dataclasses import Mod
-    for _ in range(ctx.n(50000, 1000000)):
+    for _ in range(ctx.n(150000, 1000000)):
         r = rng.random()
         if r < 0.25:
             # prefixed signed number = mass shift
